@@ -20,11 +20,12 @@ type Cat implements Pet { name: String lives: Int }
 type Dog implements Pet { name: String }
 union U = Cat | Dog
 scalar Sc
+scalar Tk
 directive @dd on FIELD_DEFINITION
 directive @oo on OBJECT | INTERFACE | UNION | ENUM
 extend type Cat @oo
 extend interface Pet @oo
-type Query { pet: Pet u: U pets: [Pet] item: Sc v: Int @dd echo(x: Sc): Sc now: Time }
+type Query { pet: Pet u: U pets: [Pet] item: Sc v: Int @dd echo(x: Sc): Sc now: Time tk: Tk }
 type Subscription { s: Int }
 """
 def sdl_of(i):
@@ -39,15 +40,39 @@ REQUESTS = [
 SUB = "subscription { s }"
 
 
-def register(i, name):
+class TkState:
+    """a scalar implementation that keeps per-INSTANCE state (an opaque-token table): the first value it serialises is "new", a value it has seen is "seen" """
+    def __init__(self):
+        self.seen = set()
+
+    def coerce_output(self, v):
+        r = "seen" if v in self.seen else "new"
+        self.seen.add(v)
+        return r
+
+    def coerce_input(self, v):
+        return v
+
+    def parse_literal(self, ast):
+        return None
+
+
+def register(i, name, tk=True):
     """bundle i (1..3) under schema name `name`: same type/field names, different behaviour.
     name=None: every decorator is used WITHOUT a schema_name argument (the documented default schema "default")"""
     if name is None:
-        return _register(i, {})
-    return _register(i, {"schema_name": name})
+        return _register(i, {}, tk)
+    return _register(i, {"schema_name": name}, tk)
 
 
-def _register(i, SN):
+def _register(i, SN, tk=True):
+    if tk:
+        Scalar("Tk", **SN)(TkState)         # the class is handed to the decorator: every schema name gets an implementation (and a state) of its own
+
+    @Resolver("Query.tk", **SN)
+    async def tkres(parent, args, ctx, info):
+        return "k"
+
     cat = {"_typename": "Cat", "name": "cat%d" % i, "lives": i}
     dog = {"_typename": "Dog", "name": "dog%d" % i}
     lying = {"_typename": "Dog", "name": "liar%d" % i, "lives": 9, "kind": "Cat"}     # default naming says Dog, the bundle's own type resolver says Cat
@@ -209,7 +234,17 @@ if not CHILD:
                         ENG[(_c, _bd)] = env.build(sdl_of(_bd), None, query_cache_decorator=DictCache())
                     else:
                         ENG[(_c, _bn)] = build(sdl_of(_bn), "co_%d_%d" % (_c, _bn), query_cache_decorator=DictCache())
-for _e in list(ALONE.values()) + list(ENG.values()):
+# one scalar class registered for TWO schema names by stacking the decorators (documented usage): still one implementation state per schema name
+STACKED = {}
+if not CHILD:
+    register(1, "stk_a", tk=False); register(2, "stk_b", tk=False)
+    Scalar("Tk", schema_name="stk_a")(Scalar("Tk", schema_name="stk_b")(TkState))
+    STACKED[1] = build(sdl_of(1), "stk_a", query_cache_decorator=DictCache())
+    STACKED[2] = build(sdl_of(2), "stk_b", query_cache_decorator=DictCache())
+TK_Q = "{ tk }"
+FIRST_TK = {}
+for _key, _e in [(("alone", k), e) for k, e in ALONE.items()] + [(("co",) + k, e) for k, e in ENG.items()] + [(("stacked", k), e) for k, e in STACKED.items()]:
+    FIRST_TK[_key] = env.run(_e.execute(TK_Q))          # the very first serialisation of the token "k" by this engine
     probe(_e, 1)
 
 
@@ -289,3 +324,22 @@ def c17_registry(s: str) -> bool:
         if s == name:
             return verdict(not raised and len(BAKED) == 5 and all(o == name for o in owners))
     return verdict(not BAKED)
+
+
+
+@obligation(tier="quick", timeout=60, samples=[{"i": 0}], selectors=["i: unused (all engines of the process are inspected; their first answers were taken at build time)"],
+            bounds="every engine built by this harness (%d), incl. two whose stateful scalar class was registered by stacked decorators" % len(FIRST_TK),
+            note="a stateful scalar: every engine's FIRST serialisation of a token answers \"new\" (no other schema name's engine has filled its state), later ones \"seen\"")
+def c17_scalar_state(i: int) -> bool:
+    """
+    post: _
+    """
+    bad = [k for k, r in FIRST_TK.items() if r != {"data": {"tk": "new"}}]
+    observe(bad[:5], len(FIRST_TK))
+    if bad:
+        return verdict(False)
+    for e in list(STACKED.values()):
+        ok, r = safe(lambda: env.run(e.execute(TK_Q)))
+        if not ok or r != {"data": {"tk": "seen"}}:
+            return verdict(False)
+    return verdict(len(FIRST_TK) > 0)
